@@ -85,6 +85,36 @@ fn port(ch: &mut Chooser, seg: usize, p2p: bool) -> PortSpec {
 /// Simulate the recipe's network and return the distinct instance states seen
 /// at BMCA ticks (first occurrence order), over all nodes.
 pub fn simulate(recipe: &WorldRecipe) -> Vec<ObservableInstanceState> {
+    simulate_checked(recipe).into_iter().map(|(s, _)| s).collect()
+}
+
+/// What a snapshot exposes for a P2P port against what that port works with: the port keeps the
+/// mean link delay its filter last handed back (across filter replacements at state changes) and
+/// subtracts it from every Sync measurement; portDS.meanLinkDelay must be that value. The live
+/// value is noted by a wrapper around the real filter (`FilterCfg::Tracked`), not read from a getter.
+fn link_delay_issue(s: &SnapshotParts) -> Option<String> {
+    for (i, p) in s.port_ds.iter().enumerate() {
+        if let DelayMechanism::P2P { mean_link_delay, .. } = p.delay_mechanism {
+            let live = s.live_mean_delay.get(i).copied().flatten();
+            // the type of the field cannot be named outside statime; let inference carry it
+            let mut want = mean_link_delay;
+            want = match live {
+                Some(u) => ptpsim::clock::units_to_duration(u).into(),
+                None => Default::default(),
+            };
+            if mean_link_delay != want {
+                return Some(format!(
+                    "node {} port {} (P2P, state {:?}) at t={} units: portDS.meanLinkDelay exposed as {:?}, but the mean link delay the port holds and subtracts from its Sync measurements (last value its filter returned) is {:?}",
+                    s.node, i + 1, p.port_state, s.at, mean_link_delay, want
+                ));
+            }
+        }
+    }
+    None
+}
+
+/// Like `simulate`, with the link-delay finding (if any) of each distinct snapshot.
+pub fn simulate_checked(recipe: &WorldRecipe) -> Vec<(ObservableInstanceState, Option<String>)> {
     let mut ch = Chooser::generate(recipe.seed);
     let mut w = World::new();
     w.keep_snapshots = true;
@@ -176,8 +206,9 @@ pub fn simulate(recipe: &WorldRecipe) -> Vec<ObservableInstanceState> {
     let mut out = Vec::new();
     for s in &w.snapshots {
         let st = to_state(s);
-        if seen.insert(state_hash(&st)) {
-            out.push(st);
+        let issue = link_delay_issue(s);
+        if seen.insert((state_hash(&st), issue.is_some())) {
+            out.push((st, issue));
         }
     }
     out
